@@ -164,8 +164,15 @@ def check_geo(p, lat, lon, zone, ell, prj):
     p.measure('geo_rt_dlon_deg', dlon)
     p.measure('geo_rt_dlon_over_tolerance', dlon / (TOL_GEO_DEG + allow))
     p.measure('geo_rt_dlon*cos(lat)_deg', dlon * math.cos(math.radians(lat)))
-    p.check(dlat <= TOL_GEO_DEG and dlon <= TOL_GEO_DEG + allow, 'roundtrip-geo', 'roundtrip_geo', inp, [q[0], q[1]],
-            [lat, lon], call2)
+    # The property's tolerance is 2e-9 deg, without any allowance. geo2grid's own rounding of E and N to 0.1 mm is
+    # worth more than that in longitude at high latitude; such cases are genuine violations of the property's words
+    # and get their own key (known finding), so that any other closure failure is still reported under 'roundtrip-geo'.
+    if dlat <= TOL_GEO_DEG and dlon > TOL_GEO_DEG and dlon <= TOL_GEO_DEG + allow:
+        p.check(False, 'roundtrip-geo:lon:output-rounding-at-high-latitude', 'roundtrip_geo', inp, [q[0], q[1]],
+                [lat, lon], call2)
+    else:
+        p.check(dlat <= TOL_GEO_DEG and dlon <= TOL_GEO_DEG, 'roundtrip-geo', 'roundtrip_geo', inp, [q[0], q[1]],
+                [lat, lon], call2)
     if LAT_LO <= lat <= LAT_HI:
         check_grid(p, z, e, n, h, ell, prj, 'geo')
 
